@@ -20,6 +20,8 @@ parts = []
 for k, label in keys:
     v = prop.get(k)
     if v:
+        if isinstance(v, dict):
+            v = v.get('text') or json.dumps(v)
         parts.append(label + (v if isinstance(v, str) else '; '.join(map(str, v))))
 if len(parts) < 2:
     parts = ['PROPERTY %s' % pid, json.dumps({k: v for k, v in prop.items() if k not in ('anchors',)}, indent=1)]
